@@ -777,6 +777,9 @@ func gsSlices(t *tr, b *strings.Builder) {
 		{"github.com/yandex/pandora/components/guns/http", "noRedirectClient", "Do", "srcNoRedirectClientDo", true, ""},
 		{"github.com/yandex/pandora/components/guns/http_scenario", "ScenarioGun", "shootStep", "srcScenarioPause", true, "Sleep"},
 		{"github.com/yandex/pandora/components/guns/grpc/scenario", "Gun", "shootStep", "srcGrpcScenarioPause", true, "Sleep"},
+		// round 4: the whole-object overwrite the grpc/json decoder relies on
+		{"github.com/yandex/pandora/components/providers/grpc", "Ammo", "Reset", "srcGrpcAmmoReset", true, ""},
+		{"github.com/yandex/pandora/components/providers/grpc", "Provider", "Release", "srcGrpcProviderRelease", true, ""},
 	}
 	cache := map[string]*packages.Package{}
 	for _, sp := range specs {
